@@ -457,6 +457,8 @@ def run(ctx):
     rule_config_class(ctx, repo)
     rule_cache(ctx, repo)
     rule_update_atomic(ctx, repo)
+    from rules import c20_writes
+    c20_writes.run_rule(ctx, repo)
     rule_ownership(ctx, repo)
     rule_options(ctx, repo)
     rule_constructors(ctx, repo)
